@@ -846,7 +846,11 @@ class Array(Tuple):
     @Tuple.nodes.setter
     def nodes(self, nodes):
         self.set_children(nodes)
-        self._value = np.empty(len(nodes), dtype=self._dtype)
+
+    def set_children(self, children):
+        Tuple.set_children(self, children)
+        # the value array always has one entry per child
+        self._value = np.empty(len(self._children), dtype=self._dtype)
 
     def update(self):
         for _i, _node in enumerate(self.nodes):
